@@ -1126,13 +1126,29 @@ func directiveSecRuleUpdateTargetByID(options *DirectiveOptions) error {
 	}
 	// The last element is expected to be the variable(s)
 	variables := idsOrRanges[length-1]
+	// Every id and range of the list is applied. A listed id without a rule is skipped, like the
+	// ids of a range that have no rule; it is an error only when the directive updated no rule.
+	updated := 0
+	var notFound error
+	updateSingle := func(id int) error {
+		if options.WAF.Rules.FindByID(id) == nil {
+			if notFound == nil {
+				notFound = fmt.Errorf("SecRuleUpdateTargetById: rule \"%d\" not found", id)
+			}
+			return nil
+		}
+		updated++
+		return updateTargetBySingleID(id, variables, options)
+	}
 	for _, idOrRange := range idsOrRanges[:length-1] {
 		if idx := strings.Index(idOrRange, "-"); idx == -1 {
 			id, err := strconv.Atoi(idOrRange)
 			if err != nil {
 				return err
 			}
-			return updateTargetBySingleID(id, variables, options)
+			if err := updateSingle(id); err != nil {
+				return err
+			}
 		} else {
 			if idx == 0 {
 				return fmt.Errorf("SecRuleUpdateTargetById: invalid negative id: %s", idOrRange)
@@ -1147,7 +1163,10 @@ func directiveSecRuleUpdateTargetByID(options *DirectiveOptions) error {
 				return err
 			}
 			if start == end {
-				return updateTargetBySingleID(start, variables, options)
+				if err := updateSingle(start); err != nil {
+					return err
+				}
+				continue
 			}
 			if start > end {
 				return fmt.Errorf("invalid range: %s", idOrRange)
@@ -1155,6 +1174,7 @@ func directiveSecRuleUpdateTargetByID(options *DirectiveOptions) error {
 
 			for _, rule := range options.WAF.Rules.GetRules() {
 				if rule.ID_ >= start && rule.ID_ <= end {
+					updated++
 					rp := RuleParser{
 						rule: &rule,
 						options: RuleOptions{
@@ -1168,6 +1188,9 @@ func directiveSecRuleUpdateTargetByID(options *DirectiveOptions) error {
 				}
 			}
 		}
+	}
+	if updated == 0 && notFound != nil {
+		return notFound
 	}
 	return nil
 }
@@ -1223,13 +1246,29 @@ func directiveSecRuleUpdateActionByID(options *DirectiveOptions) error {
 	}
 	// The last element is expected to be the action(s)
 	actions := idsOrRanges[idsOrRangesLen-1]
+	// Every id and range of the list is applied. A listed id without a rule is skipped, like the
+	// ids of a range that have no rule; it is an error only when the directive updated no rule.
+	updated := 0
+	var notFound error
+	updateSingle := func(id int) error {
+		if options.WAF.Rules.FindByID(id) == nil {
+			if notFound == nil {
+				notFound = fmt.Errorf("SecRuleUpdateActionById: rule \"%d\" not found", id)
+			}
+			return nil
+		}
+		updated++
+		return updateActionBySingleID(id, actions, options)
+	}
 	for _, idOrRange := range idsOrRanges[:idsOrRangesLen-1] {
 		if idx := strings.Index(idOrRange, "-"); idx == -1 {
 			id, err := strconv.Atoi(idOrRange)
 			if err != nil {
 				return err
 			}
-			return updateActionBySingleID(id, actions, options)
+			if err := updateSingle(id); err != nil {
+				return err
+			}
 		} else {
 			if idx == 0 {
 				return fmt.Errorf("SecRuleUpdateActionById: invalid negative id: %s", idOrRange)
@@ -1244,7 +1283,10 @@ func directiveSecRuleUpdateActionByID(options *DirectiveOptions) error {
 				return err
 			}
 			if start == end {
-				return updateActionBySingleID(start, actions, options)
+				if err := updateSingle(start); err != nil {
+					return err
+				}
+				continue
 			}
 			if start > end {
 				return fmt.Errorf("invalid range: %s", idOrRange)
@@ -1267,6 +1309,7 @@ func directiveSecRuleUpdateActionByID(options *DirectiveOptions) error {
 				if rules[i].ID_ < start || rules[i].ID_ > end {
 					continue
 				}
+				updated++
 
 				// Only clear disruptive actions if the update contains a disruptive action
 				if hasDisruptiveAction {
@@ -1285,6 +1328,9 @@ func directiveSecRuleUpdateActionByID(options *DirectiveOptions) error {
 				}
 			}
 		}
+	}
+	if updated == 0 && notFound != nil {
+		return notFound
 	}
 	return nil
 }
